@@ -6,6 +6,8 @@ from concurrent.futures import ThreadPoolExecutor, as_completed
 
 VERIF = os.path.dirname(os.path.dirname(os.path.abspath(__file__)))
 REPO = os.environ.get('VERIF_REPO', '/repo')
+BUILD = os.path.join(VERIF, 'build' + os.environ.get('VERIF_BUILD_TAG', ''))
+REPLAYS = os.path.join(VERIF, 'replays' + os.environ.get('VERIF_BUILD_TAG', ''))
 sys.path.insert(0, os.path.join(VERIF, 'vlib'))
 import ll2c
 
@@ -142,7 +144,8 @@ def cbmc_cmd(q, solver, uws):
     elif q.checks == 'basic': pass            # CBMC 6 defaults (bounds, pointer, div-by-zero ...)
     if q.unwind is not None: cmd += ['--unwind', str(q.unwind)]
     if uws: cmd += ['--unwindset', ','.join(uws)]
-    cmd += ['--unwinding-assertions', '--drop-unused-functions', '--slice-formula', '--trace', '--verbosity', '8']
+    cmd += ['--unwinding-assertions', '--drop-unused-functions', '--trace', '--verbosity', '8']
+    if not getattr(q, 'noslice', False): cmd += ['--slice-formula']
     if q.object_bits: cmd += ['--object-bits', str(q.object_bits)]
     if solver == 'kissat': cmd += ['--external-sat-solver', 'kissat']
     elif solver == 'cadical': cmd += ['--sat-solver', 'cadical']
@@ -306,6 +309,7 @@ def trace_inputs(log_path, src_path, which=0):
             prev_site = None; site_open = False; continue
         m = re.match(r'^\s+([^=\s]+)=(.*?)(?: \(([01 ]+)\))?\s*$', ln)
         if not m or cur not in nl: continue
+        if m.group(1).startswith('return_value_') and not m.group(1).startswith('return_value_nondet_'): continue
         is_rv = m.group(1).startswith('return_value_nondet_')
         if site_open and not is_rv: continue            # the copy of the return value into the variable
         if m.group(3): v = int(m.group(3).replace(' ', ''), 2)
@@ -376,5 +380,6 @@ def write_evidence(pid, tier, seed, results, wall_s, violations, assumptions, ex
                              'cbmc 6.11.0 C semantics + SAT/SMT back end', 'gcc/g++ for replay builds'])
     if extra: cov.update(extra)
     ev = dict(property_id=pid, tier=tier, seed=seed, level=level, coverage=cov, assumptions=assumptions, wall_s=round(wall_s, 1), violations=violations)
-    json.dump(ev, open(os.path.join(VERIF, 'evidence', pid + '.json'), 'w'), indent=1)
+    suffix = os.environ.get('VERIF_EVIDENCE_SUFFIX', '') or ('.partial' if os.environ.get('VERIF_ONLY') else '')
+    json.dump(ev, open(os.path.join(VERIF, 'evidence', pid + suffix + '.json'), 'w'), indent=1)
     return ev
